@@ -74,18 +74,33 @@ func main() {
 		}
 	}
 	if ntab > 0 || *seed%2 == 0 {
-		db, err = leveldb.Open(w.Stor, w.O)
-		if err != nil {
-			fmt.Fprintln(os.Stderr, "settle open:", err)
-			os.Exit(2)
-		}
-		_, levels := leveldb.VerifVersion(db)
-		for _, lv := range levels {
-			for _, t := range lv {
-				live[t.Num] = true
+		// a compaction that the open itself starts leaves its inputs (or, when Close interrupts it, its partial outputs) behind
+		// for the next open's janitor: open, let the background work drain, close - until nothing but live tables is stored
+		for round := 0; round < 6; round++ {
+			db, err = leveldb.Open(w.Stor, w.O)
+			if err != nil {
+				fmt.Fprintln(os.Stderr, "settle open:", err)
+				os.Exit(2)
+			}
+			leveldb.VerifWaitIdle(db)
+			_, levels := leveldb.VerifVersion(db)
+			live = map[int64]bool{}
+			for _, lv := range levels {
+				for _, t := range lv {
+					live[t.Num] = true
+				}
+			}
+			db.Close()
+			orphan := false
+			for _, f := range w.Stor.Files() {
+				if f.Fd.Type == storage.TypeTable && !live[f.Fd.Num] {
+					orphan = true
+				}
+			}
+			if !orphan {
+				break
 			}
 		}
-		db.Close()
 	} // else: a database without tables is settled as it is; Recover then meets the very first journal and manifest
 	settled := true
 	for _, f := range w.Stor.Files() {
@@ -94,6 +109,9 @@ func main() {
 		}
 	}
 	tr.Emit(vt.Ev{"ev": "settled", "store": nn(before), "ok": wl.B2i(settled), "tables": len(live)})
+	if !settled {
+		*variants = 0 // the property speaks about a settled shutdown: files of unfinished work would legitimately be picked up by Recover
+	}
 
 	ever := map[int]map[int]bool{}
 	for _, b := range w.Batches {
